@@ -81,6 +81,16 @@ def run(ctx, ck) -> None:
             continue
         _validation(ck, world, table, cls, fn, tag)
 
+    # ------------------------------------------------------------------ B8 reduction keeps the container
+    sub = type(ck)(ck.pid)
+    c01._r_red(sub, world, table)
+    c01._r_ident(sub, world, table)
+    for o in sub.obs:
+        if 'Block' in o.construct:
+            o.rule = f'{ck.pid}.B8'
+            ck.obs.append(o)
+    ck.floor('B8', sum(1 for o in ck.obs if o.rule.endswith('B8')), 2, 'reduce obligations of the block classes')
+
     # ------------------------------------------------------------------ B7 product rules
     sub = type(ck)(ck.pid)
     rules = table.rules()
